@@ -1,0 +1,341 @@
+//! Seams for the deterministic simulator that lives outside this repository.
+//!
+//! Compiled only with `--cfg icy_engine_verif`. With the cfg off nothing of this
+//! exists; with the cfg on and no simulator installed every hook is a no-op
+//! (gate open, real sleep, real clock, unlimited fuel).
+#![allow(clippy::missing_panics_doc, clippy::module_name_repetitions)]
+
+use std::{
+    cell::Cell,
+    ops::{Deref, Index, RangeFrom},
+    sync::{
+        atomic::{AtomicBool, AtomicI64, AtomicU64, Ordering},
+        Condvar, Mutex,
+    },
+    time::Duration,
+};
+
+use chrono::{DateTime, TimeZone, Utc};
+
+// ---------------------------------------------------------------- step fuel
+
+pub const UNLIMITED: u64 = u64::MAX;
+
+thread_local! {
+    static FUEL: Cell<u64> = const { Cell::new(UNLIMITED) };
+    static USED: Cell<u64> = const { Cell::new(0) };
+    static DEPTH: Cell<u32> = const { Cell::new(0) };
+    static MAX_DEPTH: Cell<u32> = const { Cell::new(u32::MAX) };
+    static DEPTH_SEEN: Cell<u32> = const { Cell::new(0) };
+}
+
+/// Payload of the panic raised when the simulated CPU runs out of steps.
+#[derive(Debug, Clone, Copy)]
+pub struct FuelExhausted {
+    pub used: u64,
+}
+
+/// Payload of the panic raised when `print_char` nests deeper than allowed.
+#[derive(Debug, Clone, Copy)]
+pub struct DepthExceeded {
+    pub depth: u32,
+}
+
+/// Installs the step budget of the calling thread (`UNLIMITED` = off) and resets its counters.
+pub fn set_fuel(fuel: u64, max_depth: u32) {
+    FUEL.with(|f| f.set(fuel));
+    USED.with(|f| f.set(0));
+    DEPTH.with(|f| f.set(0));
+    DEPTH_SEEN.with(|f| f.set(0));
+    MAX_DEPTH.with(|f| f.set(max_depth));
+}
+
+pub fn fuel_used() -> u64 {
+    USED.with(Cell::get)
+}
+
+pub fn depth_seen() -> u32 {
+    DEPTH_SEEN.with(Cell::get)
+}
+
+#[inline]
+pub fn tick(cost: u64) {
+    USED.with(|u| u.set(u.get().wrapping_add(cost)));
+    FUEL.with(|f| {
+        let v = f.get();
+        if v == UNLIMITED {
+            return;
+        }
+        if v < cost {
+            f.set(UNLIMITED);
+            std::panic::panic_any(FuelExhausted { used: fuel_used() });
+        }
+        f.set(v - cost);
+    });
+}
+
+pub struct DepthGuard;
+
+#[inline]
+pub fn enter() -> DepthGuard {
+    let d = DEPTH.with(|d| {
+        let v = d.get() + 1;
+        d.set(v);
+        v
+    });
+    DEPTH_SEEN.with(|s| {
+        if d > s.get() {
+            s.set(d);
+        }
+    });
+    if d > MAX_DEPTH.with(Cell::get) {
+        DEPTH.with(|d| d.set(0));
+        std::panic::panic_any(DepthExceeded { depth: d });
+    }
+    DepthGuard
+}
+
+impl Drop for DepthGuard {
+    fn drop(&mut self) {
+        DEPTH.with(|d| d.set(d.get().saturating_sub(1)));
+    }
+}
+
+// ------------------------------------------------------------ virtual clock
+
+static CLOCK_ON: AtomicBool = AtomicBool::new(false);
+static CLOCK_MS: AtomicI64 = AtomicI64::new(0);
+static SLEPT_MS: AtomicU64 = AtomicU64::new(0);
+static SLEEPS: AtomicU64 = AtomicU64::new(0);
+
+type SleepCallback = Box<dyn FnMut(Duration) + Send>;
+static ON_SLEEP: Mutex<Option<SleepCallback>> = Mutex::new(None);
+
+/// Switches to virtual time: `sleep` advances the clock instead of sleeping, `now_utc` reads it.
+pub fn clock_install(unix_ms: i64) {
+    CLOCK_MS.store(unix_ms, Ordering::SeqCst);
+    SLEPT_MS.store(0, Ordering::SeqCst);
+    SLEEPS.store(0, Ordering::SeqCst);
+    CLOCK_ON.store(true, Ordering::SeqCst);
+}
+
+pub fn clock_remove() {
+    CLOCK_ON.store(false, Ordering::SeqCst);
+    *ON_SLEEP.lock().unwrap_or_else(std::sync::PoisonError::into_inner) = None;
+}
+
+pub fn clock_set(unix_ms: i64) {
+    CLOCK_MS.store(unix_ms, Ordering::SeqCst);
+}
+
+pub fn clock_ms() -> i64 {
+    CLOCK_MS.load(Ordering::SeqCst)
+}
+
+/// (number of sleeps, total milliseconds slept) since `clock_install`.
+pub fn slept() -> (u64, u64) {
+    (SLEEPS.load(Ordering::SeqCst), SLEPT_MS.load(Ordering::SeqCst))
+}
+
+/// The simulator's scheduling point inside engine sleeps (e.g. the loader's drain loop).
+pub fn set_on_sleep(cb: Option<SleepCallback>) {
+    *ON_SLEEP.lock().unwrap_or_else(std::sync::PoisonError::into_inner) = cb;
+}
+
+pub fn sleep(d: Duration) {
+    if !CLOCK_ON.load(Ordering::SeqCst) {
+        std::thread::sleep(d);
+        return;
+    }
+    let ms = u64::try_from(d.as_millis()).unwrap_or(u64::MAX);
+    SLEEPS.fetch_add(1, Ordering::SeqCst);
+    SLEPT_MS.fetch_add(ms, Ordering::SeqCst);
+    CLOCK_MS.fetch_add(i64::try_from(ms).unwrap_or(i64::MAX), Ordering::SeqCst);
+    let cb = ON_SLEEP.lock().unwrap_or_else(std::sync::PoisonError::into_inner).take();
+    if let Some(mut cb) = cb {
+        cb(d);
+        let mut slot = ON_SLEEP.lock().unwrap_or_else(std::sync::PoisonError::into_inner);
+        if slot.is_none() {
+            *slot = Some(cb);
+        }
+    }
+}
+
+pub fn now_utc(real: DateTime<Utc>) -> DateTime<Utc> {
+    if !CLOCK_ON.load(Ordering::SeqCst) {
+        return real;
+    }
+    match Utc.timestamp_millis_opt(CLOCK_MS.load(Ordering::SeqCst)) {
+        chrono::LocalResult::Single(t) => t,
+        _ => real,
+    }
+}
+
+// ------------------------------------------------------- decode-thread gate
+
+#[derive(Debug, Clone, Copy, PartialEq, Eq)]
+pub enum TicketState {
+    /// Registered by the spawning thread, decode not released yet.
+    Parked,
+    /// Released by the simulator, decode running.
+    Released,
+    /// Decode closure has returned normally.
+    Done,
+    /// Decode closure unwound.
+    Panicked,
+}
+
+struct GateState {
+    active: bool,
+    epoch: u64,
+    tickets: Vec<TicketState>,
+    decode_fuel: u64,
+}
+
+static GATE: Mutex<GateState> = Mutex::new(GateState {
+    active: false,
+    epoch: 0,
+    tickets: Vec::new(),
+    decode_fuel: UNLIMITED,
+});
+static GATE_CV: Condvar = Condvar::new();
+
+fn gate() -> std::sync::MutexGuard<'static, GateState> {
+    GATE.lock().unwrap_or_else(std::sync::PoisonError::into_inner)
+}
+
+/// Starts a new gate epoch: decodes spawned from now on park until released.
+pub fn gate_activate(decode_fuel: u64) {
+    let mut g = gate();
+    g.active = true;
+    g.epoch += 1;
+    g.tickets.clear();
+    g.decode_fuel = decode_fuel;
+    GATE_CV.notify_all();
+}
+
+/// Ends the epoch; every parked decode of it is let go (it runs to completion unobserved).
+pub fn gate_deactivate() {
+    let mut g = gate();
+    g.active = false;
+    g.epoch += 1;
+    g.tickets.clear();
+    GATE_CV.notify_all();
+}
+
+/// Number of tickets handed out in this epoch (tickets are numbered 0.. in arrival order).
+pub fn gate_tickets() -> usize {
+    gate().tickets.len()
+}
+
+pub fn gate_state(ticket: usize) -> Option<TicketState> {
+    gate().tickets.get(ticket).copied()
+}
+
+/// Lets decode `ticket` run. Returns false if there is no such parked ticket.
+pub fn gate_release(ticket: usize) -> bool {
+    let mut g = gate();
+    match g.tickets.get_mut(ticket) {
+        Some(t) if *t == TicketState::Parked => {
+            *t = TicketState::Released;
+            GATE_CV.notify_all();
+            true
+        }
+        _ => false,
+    }
+}
+
+/// Waits until decode `ticket` has left its closure. Returns its final state, or `None` on timeout.
+pub fn gate_wait_done(ticket: usize, timeout: Duration) -> Option<TicketState> {
+    let deadline = std::time::Instant::now() + timeout;
+    let mut g = gate();
+    loop {
+        match g.tickets.get(ticket) {
+            Some(s @ (TicketState::Done | TicketState::Panicked)) => return Some(*s),
+            None => return None,
+            _ => {}
+        }
+        let now = std::time::Instant::now();
+        if now >= deadline {
+            return None;
+        }
+        g = GATE_CV.wait_timeout(g, deadline - now).unwrap_or_else(std::sync::PoisonError::into_inner).0;
+    }
+}
+
+/// The payload of a sixel DCS on its way into the decode thread.
+pub struct Gated {
+    inner: String,
+    ticket: Option<(u64, usize)>,
+    passed: Cell<bool>,
+}
+
+// The `Cell` is only touched by the thread that currently owns the value.
+unsafe impl Send for Gated {}
+
+impl Gated {
+    /// Called in the spawning thread, so tickets are numbered in arrival order.
+    pub fn new(inner: String) -> Self {
+        let mut g = gate();
+        let ticket = if g.active {
+            g.tickets.push(TicketState::Parked);
+            Some((g.epoch, g.tickets.len() - 1))
+        } else {
+            None
+        };
+        Gated {
+            inner,
+            ticket,
+            passed: Cell::new(false),
+        }
+    }
+
+    fn pass(&self) {
+        if self.passed.replace(true) {
+            return;
+        }
+        let Some((epoch, ticket)) = self.ticket else {
+            return;
+        };
+        let mut g = gate();
+        while g.active && g.epoch == epoch && g.tickets.get(ticket) == Some(&TicketState::Parked) {
+            g = GATE_CV.wait(g).unwrap_or_else(std::sync::PoisonError::into_inner);
+        }
+        if g.active && g.epoch == epoch {
+            let fuel = g.decode_fuel;
+            drop(g);
+            set_fuel(fuel, u32::MAX);
+        }
+    }
+}
+
+impl Deref for Gated {
+    type Target = str;
+    fn deref(&self) -> &str {
+        self.pass();
+        &self.inner
+    }
+}
+
+impl Index<RangeFrom<usize>> for Gated {
+    type Output = str;
+    fn index(&self, index: RangeFrom<usize>) -> &str {
+        self.pass();
+        &self.inner[index]
+    }
+}
+
+impl Drop for Gated {
+    fn drop(&mut self) {
+        let Some((epoch, ticket)) = self.ticket else {
+            return;
+        };
+        let mut g = gate();
+        if g.epoch == epoch {
+            if let Some(t) = g.tickets.get_mut(ticket) {
+                *t = if std::thread::panicking() { TicketState::Panicked } else { TicketState::Done };
+            }
+            GATE_CV.notify_all();
+        }
+    }
+}
